@@ -979,6 +979,7 @@ def run_case(desc):
 
     check_invariants(part, model, 'init:' + init['ctor'], info)
     nprobe = check_index(part, model, 'init')
+    check_set_ops(part, model)
     sweeps = 1
 
     if init['ctor'] == 'uniform':
@@ -1113,6 +1114,47 @@ def run_case(desc):
     nontriv = (len(desc['init']['axes']) >= 2 or has_bdry or
                'one-point-axis' in strata or 'nonuniform-axis' in strata)
     return Outcome('ok', strata=strata, nontrivial=nontriv, notes=notes)
+
+
+def check_set_ops(part, model):
+    """The interval product behind the partition: axis selection and
+    collapse (anchored helpers of the sub-partition construction)."""
+    ndim = len(model)
+    intv = part.set
+    los = np.array([a.lo for a in model])
+    his = np.array([a.hi for a in model])
+
+    def same(got, lo, hi, what):
+        if not isinstance(got, odl.IntervalProd) or \
+                not np.array_equal(np.asarray(got.min_pt), np.asarray(lo)) or \
+                not np.array_equal(np.asarray(got.max_pt), np.asarray(hi)):
+            raise Violation('C14|set|{}|IntervalProd'.format(what),
+                            '{!r}: got {!r} expected [{}, {}]'.format(
+                                what, got, list(lo), list(hi)))
+
+    sel = [0, ndim - 1, 0][:ndim + 1]
+    same(intv[sel], los[sel], his[sel], 'getitem-list')
+    same(intv[::2], los[::2], his[::2], 'getitem-slice')
+    same(intv[-1], los[-1:], his[-1:], 'getitem-int')
+    for i in (0, ndim - 1):
+        v = float(model[i].c[0])
+        lo, hi = los.copy(), his.copy()
+        lo[i] = hi[i] = v
+        same(intv.collapse(i, v), lo, hi, 'collapse')
+    if ndim >= 2:
+        vals = [float(model[0].c[-1]), float(model[1].c[0])]
+        lo, hi = los.copy(), his.copy()
+        lo[:2] = hi[:2] = vals
+        same(intv.collapse([0, 1], vals), lo, hi, 'collapse')
+    for bad_v in (float(np.nextafter(his[0], np.inf)),
+                  float(np.nextafter(los[0], -np.inf))):
+        try:
+            intv.collapse(0, bad_v)
+        except REJECT:
+            continue
+        raise Violation('C14|set|collapse-outside|IntervalProd',
+                        'collapse to {!r} outside [{!r}, {!r}] accepted'
+                        ''.format(bad_v, los[0], his[0]))
 
 
 def check_unchanged(part, model, where):
